@@ -282,7 +282,15 @@ class HTMLExtractorExtra(HTMLExtractor):
         if self.at_line_start() or self.intail or self.mdstack:
             # The same override exists in `HTMLExtractor` without the check
             # for `mdstack`. Therefore, use parent of `HTMLExtractor` instead.
-            return super(HTMLExtractor, self).parse_html_declaration(i)
+            try:
+                return super(HTMLExtractor, self).parse_html_declaration(i)
+            except AssertionError:
+                # See `HTMLExtractor.parse_html_declaration`: a malformed marked section must not raise.
+                result = self.parse_bogus_comment(i)
+                if result == -1:
+                    self.handle_data(self.rawdata[i:i + 1])
+                    return i + 1
+                return result
         # This is not the beginning of a raw block so treat as plain data
         # and avoid consuming any tags which may follow (see #1066).
         self.handle_data('<!')
